@@ -49,25 +49,29 @@ def _ident(s: str) -> str:
 
 def mexpr_skeleton(be: L.BindExpression) -> Tuple[str, List[Tuple[int, L.BoundVariable]]]:
     """Name-free skeleton of a match expression and the positions of its (non-dummy) bound variables."""
-    parts: List[str] = []
     bound: List[Tuple[int, L.BoundVariable]] = []
-    pos = 0
+    text: List[str] = []
 
-    def elem(e) -> str:
-        nonlocal pos
+    def elem(e) -> None:
         if isinstance(e, list):
-            return "[" + "".join(elem(x) for x in e) + "]"
-        i = pos
-        pos += 1
+            text.append("[")
+            for x in e:
+                elem(x)
+            text.append("]")
+            return
         if isinstance(e, L.DummyVariable):
-            return e.n_type
+            text.append(e.n_type)
+            return
         if isinstance(e, L.BoundVariable):
-            bound.append((i, e))
-            return e.n_type
+            # position = character offset in the skeleton: independent of how terminals are tokenised
+            bound.append((len("".join(text)), e))
+            text.append(e.n_type)
+            return
         raise Unsupported("bind element %r" % (e,))
 
     for e in be.bound_elements:
-        parts.append(elem(e))
+        elem(e)
+    parts = text
     # adjacent terminal dummies are concatenated, so "a" "b" and "ab" give the same skeleton
     return "".join(parts), bound
 
